@@ -74,6 +74,10 @@ CHECKS = {
    text="_generate_file_names proved for all path lengths (every frame -> join(target, basename(source)) with its index, one destination per source file, only referenced files moved); the delete_old block removes exactly the oldest queued path's files and only when the queue is full, never files of a live, initial or just-replaced path (N=2,3, all queue lengths, numbering variants); PathStorage.output + load_path round trip (multi-file, reversed, revisited files, missing energies, index None) natively.",
    note="os.path functions uninterpreted; whitespace-free file names and distinct basenames assumed; 6-decimal text values bounded only.",
    design="5/C14"),
+ "C08": dict(level="other", technique="effect-order and atomic-replace obligations on the real treat_output / write_toml (symnp harness per abstract state + AST call-site), deletion targets via C14's delete obligations; the prefix-restartability lemma replayed natively by BOUNDED fault injection",
+   text="Per abstract scheduler state the real treat_output stores new paths before deleting anything, writes data rows afterwards and the restart file last, exactly once; write_toml replaces restart.toml atomically (defect repaired: fix b38bdcb); deletions never touch paths of the previous restart's active list. The lemma 'every effect prefix is restartable' is replayed by killing the real main process before every file-system effect of a 3-step TurtleMD run (every 3rd in quick) and restarting: loads, finishes, no lost files. Known finding: data row duplicated after a redo.",
+   note="POSIX rename atomicity and program-order persistence assumed; 1 worker, single crash, engines' own files out of reach; the fault-injection part is bounded and labelled so.",
+   design="5/C08"),
 }
 NA = {
  "C01": "statistical convergence of an estimator over random histories; no pre/postcondition, invariant or lemma over function contracts expresses or decides it (DESIGN 5/C01). Its deterministic ingredients are decided under C02, C04, C09, C10.",
